@@ -61,6 +61,13 @@ NOT_IN_MOF = {
 }
 
 
+class _Blk(ast.AST):
+    _fields = ('body',)
+
+    def __init__(self, body):
+        self.body = list(body)
+
+
 def replace_pairs(func):
     """[(old, new)] of all .replace(const, const) calls on the escaped
     string of _mof_escaped, in application (source) order."""
@@ -236,6 +243,57 @@ def run(repo, rep, tier):
                         'the writer emits %s for %r but _fixStringValue '
                         'maps it to %r: the character is lost or changed '
                         'when the MOF is compiled' % (e, ch, back))
+    # hex escapes: the writer's digit count, the lexer's maximum and the
+    # number of digits the reader consumes must be the same number (a reader
+    # that goes on past the writer's width swallows following text that
+    # happens to be hex digits; DSP0004: 1 to 4 digits)
+    widths = {len(e) - 2 for e in wmap.values()
+              if len(e) > 2 and e[1] in 'xX'}
+    lex_max = None
+    for op, av in rx.parse(const('hexEscape')):
+        if str(op) in ('MAX_REPEAT', 'MIN_REPEAT'):
+            lex_max = av[1] if isinstance(av[1], int) else None
+    read_max = None
+    hexbranch = None
+    for n in walk_no_nested(fix.node):
+        if isinstance(n, ast.If) and isinstance(n.test, ast.Compare) and \
+                any(const_str(x) in ('x', 'X') for x in ast.walk(n.test)):
+            hexbranch = n
+    if hexbranch is not None:
+        for w in ast.walk(_Blk(hexbranch.body)):
+            if isinstance(w, ast.While) and isinstance(w.test, ast.Compare) \
+                    and len(w.test.ops) == 1 and \
+                    isinstance(w.test.left, ast.Name) and \
+                    isinstance(w.test.comparators[0], ast.Constant) and \
+                    isinstance(w.test.comparators[0].value, int):
+                k = w.test.comparators[0].value
+                if isinstance(w.test.ops[0], ast.Lt):
+                    read_max = k
+                elif isinstance(w.test.ops[0], ast.LtE):
+                    read_max = k + 1
+            elif isinstance(w, ast.For) and isinstance(w.iter, ast.Call) \
+                    and dotted(w.iter.func) == 'range' and w.iter.args and \
+                    isinstance(w.iter.args[-1], ast.Constant):
+                read_max = w.iter.args[-1].value
+    if widths:
+        r1.sites += 1
+        ok = len(widths) == 1 and lex_max is not None and \
+            read_max is not None and \
+            list(widths)[0] == read_max == lex_max
+        r1.ob(ok, 'hex-width', {'writer_digits': sorted(widths),
+                                'lexer_max_digits': lex_max,
+                                'reader_max_digits': read_max})
+        if not ok:
+            rep.finding(r1, fix.qualname, 'hex escape width', 'hex-width',
+                        MOF, (hexbranch or fix.node).lineno,
+                        'the writer emits hex escapes with %s digits, the '
+                        'lexer admits up to %s and the reader consumes up to '
+                        '%s: they must agree, otherwise hex digits that '
+                        'follow an escape are swallowed into the character '
+                        '(or escape digits leak into the text)'
+                        % (sorted(widths), lex_max,
+                           read_max if read_max is not None else
+                           'an unbounded number of'))
     for c in sorted(x for x in simple if x != 'DIGIT*'):
         r1.sites += 1
         ok = c in rmap
